@@ -444,6 +444,11 @@ struct stack_harness : sim::Harness
         p.knobs[ "p_drift_ppm" ] = sel == 0 ? own_sca[ p.config ] : sel == 1 ? -own_sca[ p.config ] : sel == 2 ? 0 : rng.range( -own_sca[ p.config ], own_sca[ p.config ] );
         p.knobs[ "setup_margin_us" ] = rng.pick( std::vector< int >{ 100, 300, 300, 1000 } );
         p.knobs[ "refuse_disarm" ] = rng.chance( 15 ) ? 1 : 0;      // the hardware never lets a scheduled event go (always "too close")
+        {
+            // connections usually start counting at 0; some start shortly before the 16 bit counter wraps or changes its sign bit
+            static const int bases[] = { 65535, 65534, 65530, 65520, 65500, 65400, 65000, 32767, 32766, 32760, 32740, 32700 };
+            p.knobs[ "event_counter_base" ] = rng.chance( 70 ) ? 0 : rng.chance( 85 ) ? bases[ rng.below( sizeof bases / sizeof bases[ 0 ] ) ] : static_cast< int >( rng.below( 65536 ) );
+        }
         const bool adv_focus = property == "C24" || property == "C25";
         const unsigned n_ops = static_cast< unsigned >( rng.range( 6, thorough ? 90 : 45 ) );
         bool connect_planned = false;
